@@ -166,6 +166,8 @@ pub fn signature(inl: &Desc) -> Vec<String> {
                         FieldKind::Array { elem: Elem::Width(w), .. } => c.push(format!("ew{}", if [8, 16, 32, 64].contains(w) { "native" } else { "odd" })),
                         FieldKind::Padding { size } => c.push(format!("pad{}", if *size == 0 { "0" } else if *size < 8 { "small" } else { "big" })),
                         FieldKind::Scalar { width, .. } if f.cond.is_some() => c.push(format!("optw{}", if [8, 16, 32, 64].contains(width) { "native" } else { "odd" })),
+                        // own scalars of a derived declaration: one octet / several octets / other
+                        FieldKind::Scalar { width, .. } if d.parent().is_some() => c.push(format!("csw{}", if *width == 8 { "8" } else if width % 8 == 0 { "multi" } else { "bits" })),
                         _ => {}
                     }
                 }
